@@ -58,6 +58,10 @@ CHECKS = {
   "runtime monitoring: client-boundary history recording on a real 3-node cluster with one artificially lagging replica; offline history checker (revision-order replay through the reference model, read windows) plus porcupine on register keys; race detector build",
   "Concurrent histories (puts, deletes, bounded range deletes, transactions incl. empty-branch and read-only ones, linearizable and serializable reads on every node, half of the reads on the lagging replica right after the client's own acknowledged write) are judged: revisions non-zero, distinct and real-time consistent; replay in revision order explains every response; linearizable reads and read-only txns match a state inside their real-time window, serializable reads some existing prefix.",
   "No client-visible faults injected: a run with a failed/timed-out write is discarded as inconclusive; lag is produced by stalling the apply path of node 3 (AppliedIndexListener); history taken at the engine API the gRPC service calls."),
+ "C16": ("exploration",
+  "runtime monitoring (black box): the real -race regatta binary (leader, and follower forwarding to it) driven with generated valid / single-rule-violating requests and raw mutated wire bytes; independent validator for the expected status class; full table dumps after every request compared with the reference model; process liveness, stderr (panic / fatal / race / checkptr) and clean SIGTERM exit observed",
+  "A fixed catalogue (every documented rule per method, each also nested in executed and non-executed transaction branches, boundary-size keys/values, hostile table names, every wire mutation per method) and a seeded request stream are sent; refused requests must leave every dump unchanged, accepted ones must change it exactly as the model says, and the serving process must stay alive.",
+  "Raw wire mutants are judged only on liveness and refused => unchanged; a pebble assertion that exists only in -race builds (inverted read bounds reaching an sstable) and race reports inside regatta's copy of iter.Pull are counted, not judged."),
 }
 
 NOT_YET = {}
